@@ -86,7 +86,33 @@ template <class T, glm::qualifier Q> static void reg_transform() {
 	(void)sizeof(M4);
 }
 
+// integer packers reading a vector that sits at the smallest address offset its type allows (alignof(u8vec4) is 1 when packed): a
+// wider load through a cast pointer is then misaligned (UBSan alignment check); values are compared as well
+template <class V> struct alignas(64) MinAligned { char pad[alignof(V)]; V p; };
+template <class V, class R, R (*F)(V const&)> static void pack_minaligned(const Slot* in, Slot* out) {
+	MinAligned<V> b; memset(&b, 0, sizeof b);
+	for (int i = 0; i < (int)V::length(); ++i) b.p[i] = (typename V::value_type)in[i].u;
+	launder_q(&b);
+	unsigned long long r = (unsigned long long)F(b.p);
+	if (sizeof(R) < 8) r &= (1ULL << (8 * sizeof(R))) - 1;
+	out[0].ul = 0; out[1].ul = 0; out[0].u = (unsigned)r; out[1].u = (unsigned)(r >> 32);
+}
+template <glm::qualifier Q> static void reg_pack_int() {
+	auto name = [&](const char* b) { return nm<float, Q>(b, "pack"); };
+	add_op(name("packInt2x8_minaligned"), "uI2", "u2", 'B', 'B', 0, &pack_minaligned<glm::i8vec2, glm::int16, &glm::packInt2x8>);
+	add_op(name("packUint2x8_minaligned"), "uI2", "u2", 'B', 'B', 0, &pack_minaligned<glm::u8vec2, glm::uint16, &glm::packUint2x8>);
+	add_op(name("packInt4x8_minaligned"), "uI4", "u2", 'B', 'B', 0, &pack_minaligned<glm::i8vec4, glm::int32, &glm::packInt4x8>);
+	add_op(name("packUint4x8_minaligned"), "uI4", "u2", 'B', 'B', 0, &pack_minaligned<glm::u8vec4, glm::uint32, &glm::packUint4x8>);
+	add_op(name("packInt2x16_minaligned"), "uI2", "u2", 'B', 'B', 0, &pack_minaligned<glm::i16vec2, int, &glm::packInt2x16>);
+	add_op(name("packUint2x16_minaligned"), "uI2", "u2", 'B', 'B', 0, &pack_minaligned<glm::u16vec2, glm::uint, &glm::packUint2x16>);
+	add_op(name("packInt4x16_minaligned"), "uI4", "u2", 'B', 'B', 0, &pack_minaligned<glm::i16vec4, glm::int64, &glm::packInt4x16>);
+	add_op(name("packUint4x16_minaligned"), "uI4", "u2", 'B', 'B', 0, &pack_minaligned<glm::u16vec4, glm::uint64, &glm::packUint4x16>);
+	add_op(name("packInt2x32_minaligned"), "uI2", "u2", 'B', 'B', 0, &pack_minaligned<glm::i32vec2, glm::int64, &glm::packInt2x32>);
+	add_op(name("packUint2x32_minaligned"), "uI2", "u2", 'B', 'B', 0, &pack_minaligned<glm::u32vec2, glm::uint64, &glm::packUint2x32>);
+}
+
 template <glm::qualifier Q> static void reg_pack() {
+	reg_pack_int<Q>();
 	auto name = [&](const char* b) { return nm<float, Q>(b, "pack"); };
 	add_op(name("packUnorm4x8"), "fG4", "u1", 'B', 'B', 0, FN { ST1(out, (unsigned)glm::packUnorm4x8(glm::vec4(VL<4, float, Q>::ld(in)))); });
 	add_op(name("packSnorm4x8"), "fG4", "u1", 'B', 'B', 0, FN { ST1(out, (unsigned)glm::packSnorm4x8(glm::vec4(VL<4, float, Q>::ld(in)))); });
@@ -168,6 +194,12 @@ template <class T, glm::qualifier Q> static void reg_gtxquat() {
 		       long double smin = fabsl((long double)SA<T>::get(in[4])); for (int i = 5; i < 7; ++i) if (fabsl((long double)SA<T>::get(in[i])) < smin) smin = fabsl((long double)SA<T>::get(in[i]));
 		       if (smin < 1.0L / 64) return 0.0L;
 		       return m * 32; });
+	// qua(u, v) for exactly opposite unit vectors: the half-turn branch builds its axis from a local vector; the result is documented as
+	// "some axis orthogonal to u", but it is a deterministic function of u in every configuration and at every optimisation level
+	add_op(name("from_opposite_vectors"), spec("@U3", tl), spec("@4", tl), 'U', 'U', 64, FN { glm::vec<3, T, Q> u = VL<3, T, Q>::ld(in); launder_q(&u); glm::vec<3, T, Q> v = -u; launder_q(&v); STQ(out, glm::qua<T, Q>(u, v)); }, SC { return 1.0L; },
+	       SC { long double x = (long double)SA<T>::get(in[0]), y = (long double)SA<T>::get(in[1]), z = (long double)SA<T>::get(in[2]); long double n = x * x + y * y + z * z; if (!(n > 0.25L)) return 0.0L; return (y * y + z * z) / n; });  // u next to the x axis: the fallback-axis branch may flip with rounding
+	add_op(name("from_two_vectors"), spec("@U3 @U3", tl), spec("@4", tl), 'U', 'U', 4096, FN { STQ(out, glm::qua<T, Q>(VL<3, T, Q>::ld(in), VL<3, T, Q>::ld(in + 3))); }, SC { return 1.0L; },
+	       SC { long double d = 0; for (int i = 0; i < 3; ++i) d += (long double)SA<T>::get(in[i]) * (long double)SA<T>::get(in[3 + i]); return (1 + d) * 64; });
 	add_op(name("gtx_rotate_vec3"), spec("@U4 @F3", tl), spec("@3", tl), 'U', 'U', 64, FN { ST(out, glm::rotate(LDQ<T, Q>(in), VL<3, T, Q>::ld(in + 4))); }, SC { return 4 * amax<T>(in, 4, 3); });
 	add_op(name("gtx_toMat4"), spec("@U4", tl), spec("@16", tl), 'U', 'U', 8, FN { STM(out, glm::toMat4(LDQ<T, Q>(in))); }, SC { return 4.0L; });
 	add_op(name("gtx_extractRealComponent"), spec("@T3", tl), spec("@1", tl), 'U', 'U', 8, FN { glm::qua<T, Q> q = glm::qua<T, Q>::wxyz(T(0), SA<T>::get(in[0]) * T(0.5), SA<T>::get(in[1]) * T(0.5), SA<T>::get(in[2]) * T(0.5)); ST1(out, glm::extractRealComponent(q)); }, SC { return 1.0L; });
